@@ -1069,6 +1069,7 @@ class FnResult:
     reason: str = ""
     obs: list = field(default_factory=list)
     bounded: Optional[dict] = None
+    audit: Optional[dict] = None
     rebound: list = field(default_factory=list)
     axioms: list = field(default_factory=list)
     notes: list = field(default_factory=list)
@@ -1136,6 +1137,8 @@ def symbolic_function(c: Contract, law_attr, eq, assoc, rng) -> tuple[str, list,
         returned = 0
         for k, (cond, (tag, val)) in enumerate(paths):
             pname = sname + (f"/path{k}" if len(paths) > 1 else "")
+            if cond and _path_infeasible(cond):
+                continue
             if tag == "raise":
                 if isinstance(val, (ValueError, AssertionError)):
                     continue  # the function refuses this part of the domain (explicit raise / boundary assert)
@@ -1147,8 +1150,11 @@ def symbolic_function(c: Contract, law_attr, eq, assoc, rng) -> tuple[str, list,
             val = sp.sympify(val)
             if val.has(sp.I):
                 return "unreachable", [], SYNTACTIC_BOUNDED_RULES[0][1], rebound_all, []
-            if val.has(sp.nan) or val.has(sp.zoo):
-                return "unreachable", [], "generic result is nan/zoo", rebound_all, []
+            if val.has(sp.nan) or val.has(sp.zoo) or val.has(sp.oo):
+                # on this path the function divides by zero: no finite value is returned (the real Quantity
+                # constructor refuses non-finite scale factors), the property does not constrain it
+                returned -= 1
+                continue
             try:
                 ob = _discharge_path(c, law_attr, eq, pairs, n_by_base, val, cond, pname, args, rng, axioms_all)
             except Unsupported as u:
@@ -1186,6 +1192,17 @@ class FloatOnly(Exception):
 
 def _has_float(*exprs) -> bool:
     return any(sp.sympify(e).atoms(sp.Float) for e in exprs)
+
+
+def _path_infeasible(cond) -> bool:
+    """A recorded path whose condition is unsatisfiable over the reals was never a behaviour of the function."""
+    try:
+        tr = Tr()
+        cs = [tr.trb(reeval(reduce_constants(x)[0])) for x in cond]
+        r, _, _, _ = check_sat(cs + tr.facts(), timeout_s=5.0, use_cvc5=False)
+        return r == "unsat"
+    except Exception:  # noqa: BLE001
+        return False
 
 
 def _discharge_path(c, law_attr, eq, pairs, n_by_base, val, cond, pname, args, rng, axioms_all) -> Ob:
@@ -1293,25 +1310,28 @@ def _concretize(c: Contract, law_attr, eq, model, tr, args, cond, R, H, rng) -> 
     for p in c.params:
         a = args[p.name]
         flat += list(a) if isinstance(a, list) else [a]
-    cands = []
+    def rand_pt(signed: bool):
+        pt = {}
+        for s in flat:
+            v = math.exp(rng.uniform(math.log(0.2), math.log(8)))
+            if s.is_integer:
+                v = float(rng.randint(1, 6))
+            if signed and not (s.is_positive or s.is_nonnegative) and rng.random() < 0.4:
+                v = -v
+            if s.is_negative:
+                v = -abs(v)
+            pt[s] = v
+        return pt
+
+    # physically plausible (positive) points first, then the solver's model, then signed points
+    cands = [rand_pt(False) for _ in range(40)]
     if model is not None and tr is not None:
         pt = {}
         for s in flat:
             mv = _model_value(model, tr, s)
             pt[s] = mv if mv is not None else 1.0
         cands.append(pt)
-    for _ in range(60):
-        pt = {}
-        for s in flat:
-            v = math.exp(rng.uniform(math.log(0.2), math.log(8)))
-            if s.is_integer:
-                v = float(rng.randint(1, 6))
-            if not (s.is_positive or s.is_nonnegative) and rng.random() < 0.3:
-                v = -v
-            if s.is_negative:
-                v = -abs(v)
-            pt[s] = v
-        cands.append(pt)
+    cands += [rand_pt(True) for _ in range(40)]
     last = ""
     for pt in cands:
         try:
@@ -1323,6 +1343,9 @@ def _concretize(c: Contract, law_attr, eq, model, tr, args, cond, R, H, rng) -> 
                 else:
                     entries[p.name] = _entry(p, pt[a], rng)
             try:
+                if not _path_holds(cond, pt):
+                    last = "candidate point is off the path"
+                    continue
                 if _prescreen_small(R, pt):
                     last = "symbolic residual is ~0 at the candidate point"
                     continue
@@ -1341,6 +1364,17 @@ def _concretize(c: Contract, law_attr, eq, model, tr, args, cond, R, H, rng) -> 
         except Exception as e:
             last = f"{type(e).__name__}: {e}"[:200]
     return {"reproduced": False, "script": None, "message": last}
+
+
+def _path_holds(cond, pt) -> bool:
+    try:
+        for cnd in cond:
+            v = numeric_constants(sp.sympify(cnd)).xreplace({s: sp.Float(x) for s, x in pt.items()})
+            if v is sp.false or v == False:  # noqa: E712
+                return False
+        return True
+    except Exception:  # noqa: BLE001
+        return True
 
 
 def _prescreen_small(R, pt) -> bool:
@@ -1490,13 +1524,14 @@ def process_module(task) -> dict:
     names = [n for n, f in vars(mod).items()
              if n.startswith("calculate_") and inspect.isfunction(f) and f.__module__ == modname]
     npoints = 20 if tier == "thorough" else 3
+    audit_points = 5 if tier == "thorough" else 1
     for fname in names:
         t1 = time.time()
         qual = f"{short(modname)}.{fname}"
         rng = random.Random(f"{sd}|{qual}")
         fr = FnResult(qual=qual, file=str(path))
         try:
-            _process_function(mod, fname, fr, rng, npoints, demoted, generate)
+            _process_function(mod, fname, fr, rng, npoints, demoted, generate, audit_points)
         except Exception as e:  # noqa: BLE001
             fr.klass = "fault"
             fr.reason = f"{type(e).__name__}: {e} :: {traceback.format_exc()[-700:]}"
@@ -1506,7 +1541,7 @@ def process_module(task) -> dict:
     return out
 
 
-def _process_function(mod, fname, fr: FnResult, rng, npoints, demoted, generate):
+def _process_function(mod, fname, fr: FnResult, rng, npoints, demoted, generate, audit_points=0):
     c = build_contract(mod, fname)
     if c.reason:
         fr.klass, fr.reason = "out_of_reach", c.reason
@@ -1569,6 +1604,14 @@ def _process_function(mod, fname, fr: FnResult, rng, npoints, demoted, generate)
             fr.notes.append("partly proved (some equations / shapes), partly bounded")
     else:
         vs = {o.verdict for o in fr.obs}
+        if vs == {PROVED} and audit_points > 0:
+            law_attr, eq, assoc = c.laws[0]
+            try:
+                fr.audit = bounded_function(c, law_attr, eq, assoc, rng, audit_points)
+            except Exception as e:  # noqa: BLE001
+                fr.audit = {"accepted": 0, "refused": 0, "failures": [], "errors": [f"{type(e).__name__}: {e}"], "tries": 0}
+            for f in fr.audit["failures"]:
+                f["name"] = f["name"].replace("/bounded", "/audit-of-proved")
         fr.klass = "refuted" if REFUTED in vs else "undecided" if UNKNOWN in vs else "fault" if FAULT in vs else "proved"
         if any(_is_seq_param(p) for p in c.params) and fr.klass in ("proved", "refuted"):
             # for-all-values proofs, but only at sequence lengths 1..3: a bounded family, not counted as proved
